@@ -85,14 +85,15 @@ theorem randomPhs_mem (s : Sampler α) (r : α) (p : Phs α) (h : s.randomPhs r 
 
 /-! ## C. sample a PHS, reject on bounds -/
 
-/-- Specification of `phsRejectBounds`: (1) a success is in bounds, is the transform of the draw's
-ball point by one of the sampler's PHSs and passed `keepSample`, (2,3) counter bounds, (4) draw
+/-- Specification of `phsRejectBounds`: (1) a success is in bounds and in some PHS (the re-test of the
+fix), is the transform of the draw's ball point by one of the sampler's PHSs and passed `keepSample`, (2,3) counter bounds, (4) draw
 accounting (a null-PHS exit consumes one draw without bumping the counter), (5) a success is neither
 starved nor a null-PHS exit, (6) suffix. -/
 theorem phsRejectBounds_spec (s : Sampler α) (inB : List α × ρ → Bool) (lim : Nat) :
     ∀ (ds : List (Draw α ρ)) (cur : List α × ρ) (it : Nat),
       ((phsRejectBounds s inB lim ds cur it).found = true →
           inB (phsRejectBounds s inB lim ds cur it).st = true ∧
+          s.isInAny (phsRejectBounds s inB lim ds cur it).st.1 = true ∧
           ∃ d ∈ ds, ∃ p ∈ s.phss,
             p.transform d.ball = some (phsRejectBounds s inB lim ds cur it).st.1 ∧
             s.keep (phsRejectBounds s inB lim ds cur it).st.1 d.r2 = true ∧
@@ -119,7 +120,7 @@ theorem phsRejectBounds_spec (s : Sampler α) (inB : List α × ρ → Bool) (li
     have hrec : it < lim → ∀ cur',
         let o := phsRejectBounds s inB lim ds cur' (it + 1)
         (o.found = true →
-          inB o.st = true ∧
+          inB o.st = true ∧ s.isInAny o.st.1 = true ∧
           ∃ d' ∈ d :: ds, ∃ p ∈ s.phss,
             p.transform d'.ball = some o.st.1 ∧ s.keep o.st.1 d'.r2 = true ∧ o.st.2 = d'.rot) ∧
         it ≤ o.iters ∧ (it ≤ lim → o.iters ≤ lim) ∧
@@ -134,8 +135,8 @@ theorem phsRejectBounds_spec (s : Sampler α) (inB : List α × ρ → Bool) (li
       refine ⟨fun hf => ?_, by omega, fun _ => h3 (by omega),
         fun hn => by have := h4 hn; simp; omega, fun hn => by have := h4' hn; simp; omega, h5,
         h6.trans (List.suffix_cons _ _)⟩
-      obtain ⟨hb, d', hd', hrest⟩ := h1 hf
-      exact ⟨hb, d', List.mem_cons_of_mem _ hd', hrest⟩
+      obtain ⟨hb, hany, d', hd', hrest⟩ := h1 hf
+      exact ⟨hb, hany, d', List.mem_cons_of_mem _ hd', hrest⟩
     rw [phsRejectBounds]
     split
     · rename_i hlt
@@ -152,13 +153,33 @@ theorem phsRejectBounds_spec (s : Sampler α) (inB : List α × ρ → Bool) (li
           · rename_i hk
             split
             · rename_i hb
-              refine ⟨fun _ => ⟨hb, d, List.mem_cons_self, p, randomPhs_mem s _ p hp, hx, hk, rfl⟩,
+              have hb' := Bool.and_eq_true_iff.1 hb
+              refine ⟨fun _ => ⟨hb'.1, hb'.2, d, List.mem_cons_self, p, randomPhs_mem s _ p hp, hx,
+                  hk, rfl⟩,
                 by simp, fun _ => by simp; omega, fun _ => by simp, fun hn => by simp at hn,
                 fun _ => ⟨rfl, rfl⟩, List.suffix_cons _ _⟩
             · exact hrec hlt _
           · exact hrec hlt _
     · refine ⟨fun hf => by simp at hf, by simp, fun h => by simpa using h, fun _ => by simp,
         fun hn => by simp at hn, fun hf => by simp at hf, List.suffix_refl _⟩
+
+/-- Witness for the loop BEFORE the fix (conditional; the hypotheses are what rounding realises): a
+kept, in-bounds transform that lies in no PHS is returned as a success by the old loop, and is
+rejected by the fixed one. -/
+theorem direct_old_phs_branch_fails (s : Sampler α) (inB : List α × ρ → Bool) (lim : Nat)
+    (hl : 0 < lim) (d : Draw α ρ) (cur : List α × ρ) (p : Phs α) (x : List α)
+    (hr : s.randomPhs d.r1 = some p) (ht : p.transform d.ball = some x)
+    (hk : s.keep x d.r2 = true) (hb : inB (x, d.rot) = true) (hout : s.isInAny x = false) :
+    (phsRejectBoundsOld s inB lim [d] cur 0).found = true ∧
+    (phsRejectBoundsOld s inB lim [d] cur 0).st = (x, d.rot) ∧
+    s.isInAny (phsRejectBoundsOld s inB lim [d] cur 0).st.1 = false ∧
+    (phsRejectBounds s inB lim [d] cur 0).found = false := by
+  have hold : phsRejectBoundsOld s inB lim [d] cur 0 = ⟨true, (x, d.rot), 1, [], false, false⟩ := by
+    simp [phsRejectBoundsOld, hl, hr, ht, hk, hb]
+  have hnew : (phsRejectBounds s inB lim [d] cur 0).found = false := by
+    simp [phsRejectBounds, hl, hr, ht, hk, hb, hout]
+  rw [hold]
+  exact ⟨rfl, rfl, hout, hnew⟩
 
 /-! ## D. the direct sampler, two-argument form -/
 
@@ -225,7 +246,7 @@ def DirectOk (s' : Sampler α) (inB : List α × ρ → Bool) (fin : Bool) (ds :
     (s'.useBoundsBranch = true →
       s'.isInAny st.1 = true ∧ ∃ d ∈ ds, st = (d.baseInf, d.baseRest)) ∧
     (s'.useBoundsBranch = false →
-      inB st = true ∧ ∃ d ∈ ds, ∃ p ∈ s'.phss,
+      inB st = true ∧ s'.isInAny st.1 = true ∧ ∃ d ∈ ds, ∃ p ∈ s'.phss,
         p.transform d.ball = some st.1 ∧ s'.keep st.1 d.r2 = true ∧ st.2 = d.rot))
 
 /-- `DirectOk` is monotone in the list of draws -/
@@ -238,8 +259,8 @@ theorem DirectOk.mono {s' : Sampler α} {inB : List α × ρ → Bool} {fin : Bo
     exact ⟨d, hsub.mem hd, e⟩
   · obtain ⟨hi, d, hd, e⟩ := (h2 hf).1 hb
     exact ⟨hi, d, hsub.mem hd, e⟩
-  · obtain ⟨hi, d, hd, e⟩ := (h2 hf).2 hb
-    exact ⟨hi, d, hsub.mem hd, e⟩
+  · obtain ⟨hi, ha, d, hd, e⟩ := (h2 hf).2 hb
+    exact ⟨hi, ha, d, hsub.mem hd, e⟩
 
 /-- Specification of the private `sampleUniform(statePtr, maxCost, iters)`: with
 `o := (s.sampleInner inB fin c ds cur it).2`, (1) a success satisfies `DirectOk`, (2) the counter
@@ -537,22 +558,89 @@ theorem argBest_mem (h : σ → α) (q : List σ) (t : σ) (ht : argBest h q = s
     rw [← ht]
     exact foldl_pick_mem _ (fun b y => by split <;> simp) xs x
 
-/-- `OrderedInfSampler`: the returned state has cost below the bound and is the state left by SOME
-wrapped call of one of the batches (whatever flag that call returned); the queue is that batch. -/
-theorem orderedSample_sound (h : σ → α) (c : α) :
+/-- `argBest` fails only on the empty list -/
+theorem argBest_eq_none (h : σ → α) (q : List σ) (hn : argBest h q = none) : q = [] := by
+  cases q with
+  | nil => rfl
+  | cons x xs => simp [argBest] at hn
+
+/-- `OrderedInfSampler` (fixed): a true return gives a state whose cost is below the bound and that
+was produced by a SUCCESSFUL wrapped call of one of the batches; the queue is the successful part
+of that batch. -/
+theorem ordered_success_sound (h : σ → α) (c : α) :
     ∀ (bs : List (List (Wrapped σ))) (t : σ) (q : List σ),
-      orderedSample h c bs = some (t, q) →
-      h t < c ∧ ∃ b ∈ bs, q = b.map (·.2) ∧ ∃ w ∈ b, w.2 = t := by
+      orderedSample h c bs = .found t q →
+      h t < c ∧ ∃ b ∈ bs, q = (b.filter (·.1)).map (·.2) ∧ ∃ w ∈ b, w.1 = true ∧ w.2 = t := by
   intro bs
   induction bs with
   | nil => intro t q hs; simp [orderedSample] at hs
   | cons b bs ih =>
     intro t q hs
-    have hrec : orderedSample h c bs = some (t, q) →
+    rw [orderedSample] at hs
+    split at hs
+    · cases hs
+    · rename_i t' hbest
+      split at hs
+      · rename_i hlt
+        injection hs with e1 e2
+        subst e1 e2
+        refine ⟨hlt, b, List.mem_cons_self, rfl, ?_⟩
+        have := argBest_mem h _ _ hbest
+        obtain ⟨w, hw, e⟩ := List.mem_map.1 this
+        obtain ⟨hwb, hflag⟩ := List.mem_filter.1 hw
+        exact ⟨w, hwb, hflag, e⟩
+      · obtain ⟨hlt, b', hb', hq, hw⟩ := ih t q hs
+        exact ⟨hlt, b', List.mem_cons_of_mem _ hb', hq, hw⟩
+
+/-- Hence whatever the successful wrapped calls guarantee (`good`) holds of a returned sample. -/
+theorem ordered_success_good (h : σ → α) (c : α) (good : σ → Prop)
+    (bs : List (List (Wrapped σ))) (hw : ∀ b ∈ bs, ∀ w ∈ b, w.1 = true → good w.2)
+    (t : σ) (q : List σ) (hs : orderedSample h c bs = .found t q) : good t ∧ h t < c := by
+  obtain ⟨hlt, b, hb, _, w, hwb, hflag, e⟩ := ordered_success_sound h c bs t q hs
+  exact ⟨e ▸ hw b hb w hwb hflag, hlt⟩
+
+/-- the fixed wrapper returns false only when a whole batch of wrapped calls failed -/
+theorem ordered_failed_batch (h : σ → α) (c : α) :
+    ∀ (bs : List (List (Wrapped σ))), orderedSample h c bs = .failed →
+      ∃ b ∈ bs, ∀ w ∈ b, w.1 = false := by
+  intro bs
+  induction bs with
+  | nil => intro hs; simp [orderedSample] at hs
+  | cons b bs ih =>
+    intro hs
+    rw [orderedSample] at hs
+    split at hs
+    · rename_i hnone
+      refine ⟨b, List.mem_cons_self, fun w hw => ?_⟩
+      have hq := argBest_eq_none h _ hnone
+      have hfil : b.filter (·.1) = [] := List.map_eq_nil_iff.1 hq
+      cases hflag : w.1 with
+      | false => rfl
+      | true =>
+        have : w ∈ b.filter (·.1) := List.mem_filter.2 ⟨hw, hflag⟩
+        rw [hfil] at this
+        cases this
+    · split at hs
+      · cases hs
+      · obtain ⟨b', hb', hall⟩ := ih hs
+        exact ⟨b', List.mem_cons_of_mem _ hb', hall⟩
+
+/-- `OrderedInfSampler` BEFORE the fix: the returned state has cost below the bound and is the state
+left by SOME wrapped call of one of the batches (whatever flag that call returned). -/
+theorem orderedSampleOld_sound (h : σ → α) (c : α) :
+    ∀ (bs : List (List (Wrapped σ))) (t : σ) (q : List σ),
+      orderedSampleOld h c bs = some (t, q) →
+      h t < c ∧ ∃ b ∈ bs, q = b.map (·.2) ∧ ∃ w ∈ b, w.2 = t := by
+  intro bs
+  induction bs with
+  | nil => intro t q hs; simp [orderedSampleOld] at hs
+  | cons b bs ih =>
+    intro t q hs
+    have hrec : orderedSampleOld h c bs = some (t, q) →
         h t < c ∧ ∃ b' ∈ b :: bs, q = b'.map (·.2) ∧ ∃ w ∈ b', w.2 = t := fun hs' => by
       obtain ⟨hlt, b', hb', hq, hw⟩ := ih t q hs'
       exact ⟨hlt, b', List.mem_cons_of_mem _ hb', hq, hw⟩
-    rw [orderedSample] at hs
+    rw [orderedSampleOld] at hs
     split at hs
     · exact hrec hs
     · rename_i t' hbest
@@ -567,11 +655,16 @@ theorem orderedSample_sound (h : σ → α) (c : α) :
         exact ⟨w, hw, e⟩
       · exact hrec hs
 
-/-- Defect witness: a state that the wrapped sampler reported as FAILED (flag `false`) is returned
-as a successful ordered sample as soon as its cost is below the bound. -/
-theorem ordered_returns_failed_sample (h : σ → α) (c : α) (t : σ) (ht : h t < c) :
-    orderedSample h c [[(false, t)]] = some (t, [t]) := by
-  simp [orderedSample, argBest, ht]
+/-- Defect witness (before the fix): a state that the wrapped sampler reported as FAILED (flag
+`false`) is returned as a successful ordered sample as soon as its cost is below the bound. -/
+theorem ordered_old_returns_failed_sample (h : σ → α) (c : α) (t : σ) (ht : h t < c) :
+    orderedSampleOld h c [[(false, t)]] = some (t, [t]) := by
+  simp [orderedSampleOld, argBest, ht]
+
+/-- Contrast (after the fix): the same input makes the wrapper return false. -/
+theorem ordered_new_rejects_failed_sample (h : σ → α) (c : α) (t : σ) :
+    orderedSample h c [[(false, t)]] = .failed := by
+  simp [orderedSample, argBest]
 
 /-! ## G. the heuristic of the direct sampler -/
 
